@@ -36,5 +36,6 @@ GNext ==
   \/ Snapshot /\ H([a |-> "Snapshot"])
   \/ GUser /\ cnt.user < MaxUser
   \/ Ack /\ H([a |-> "Ack"])
+  \/ Nack /\ H([a |-> "Nack"])
 GSpec == GInit /\ [][GNext]_<<vars, hist>>
 ====
